@@ -88,7 +88,13 @@ class RC:
     pass
 
 
-MODULE_TYPES = {"RA": RA, "RB": RB, "RC": RC}
+# a resource type that is no class but a typing alias - one with None among its arguments, which makes it no Optional
+RD = __import__("typing").Callable[..., None]
+MODULE_TYPES = {"RA": RA, "RB": RB, "RC": RC, "RD": RD}
+
+
+def new_value(T: Any) -> Any:
+    return T() if isinstance(T, type) else (lambda *a, **k: None)
 NAMES = ["default", "a", "b", "2nd", "7"]  # (any \w+ is a legal resource name, also one that is no Python identifier)
 
 
@@ -103,7 +109,7 @@ def gen_signature(rng: Any) -> dict[str, Any]:
     inj = []
     used = set()
     for i in range(rng.randint(1, 4)):
-        t = rng.choice(["RA", "RB", "RC"])
+        t = rng.choice(["RA", "RA", "RB", "RB", "RC", "RC", "RD"])
         name = rng.choice(NAMES)
         if (t, name) in used:
             continue
@@ -121,7 +127,7 @@ def gen_signature(rng: Any) -> dict[str, Any]:
         if not is_optional(b["spelling"]):
             b["spelling"] = "Optional[T]"
     local_classes = rng.random() < 0.3
-    if not local_classes and rng.random() < 0.2:
+    if rng.random() < 0.2:
         # one annotation is a forward reference to a module-level name that is only defined after the function was called once
         inj[0]["late"] = True
         inj[0]["as_string"] = True
@@ -164,12 +170,12 @@ def build_source(sig: dict[str, Any]) -> str:
     lines.append("from typing import Annotated, Optional, Union")
     if sig["local_classes"]:
         lines.append("def make():")
-        for t in ("RA", "RB", "RC"):
+        for t in ("RA", "RB", "RC", "RD"):
             lines.append(f"    class {t}: pass")
         lines.append("    @inject")
         lines.append("    " + head)
         lines.extend("    " + b for b in body)
-        lines.append("    return target, {'RA': RA, 'RB': RB, 'RC': RC}")
+        lines.append("    return target, {'RA': RA, 'RB': RB, 'RC': RC, 'RD': RD}")
         lines.append("target, TYPES = make()")
     elif sig.get("stacked"):
         # @inject on top of another decorator that uses functools.wraps: the wrapper itself takes (*args, **kwargs); the
@@ -185,12 +191,12 @@ def build_source(sig: dict[str, Any]) -> str:
         else:
             lines.append("def target(*args, **kwargs):")
             lines.append("    return _inner(*args, **kwargs)")
-        lines.append("TYPES = {'RA': RA, 'RB': RB, 'RC': RC}")
+        lines.append("TYPES = {'RA': RA, 'RB': RB, 'RC': RC, 'RD': RD}")
     else:
         lines.append("@inject")
         lines.append(head)
         lines.extend(body)
-        lines.append("TYPES = {'RA': RA, 'RB': RB, 'RC': RC}")
+        lines.append("TYPES = {'RA': RA, 'RB': RB, 'RC': RC, 'RD': RD}")
     return "\n".join(lines) + "\n"
 
 
@@ -257,7 +263,7 @@ async def scenario(case: dict[str, Any], out: dict[str, Any]) -> None:
                 cur = current_context()
                 Tj = TYPES[j["type"]]
                 if cur.get_resource_nowait(Tj, j["name"], optional=True) is None:
-                    cur.add_resource(Tj(), j["name"], types=[Tj])
+                    cur.add_resource(new_value(Tj), j["name"], types=[Tj])
                     inc("resources_published_as_a_side_effect_of_a_generation")
 
     def setup(ctx: Any, inherited: bool) -> None:
@@ -269,7 +275,7 @@ async def scenario(case: dict[str, Any], out: dict[str, Any]) -> None:
                 continue
             where = ctx
             if state in ("static", "inherited_static"):
-                where.add_resource(T(), name, types=[T])
+                where.add_resource(new_value(T), name, types=[T])
             elif state in ("sync_factory", "inherited_factory"):
                 def sf(key: Any = key, arg: str = i["arg"]) -> Any:
                     factory_calls[key] = factory_calls.get(key, 0) + 1
@@ -349,7 +355,7 @@ async def scenario(case: dict[str, Any], out: dict[str, Any]) -> None:
                     await r0
             except Exception:
                 inc("first_call_failed_on_unresolved_forward_ref")
-            for t in ("RA", "RB", "RC"):
+            for t in ("RA", "RB", "RC", "RD"):
                 ns["Late" + t] = TYPES[t]
         if case["explicit_first"]:
             before = await explicit(ctx)
